@@ -431,7 +431,54 @@ def rule_r10(ctx):
     c02.rule_r2_receivers(ctx, rid="C07.R11")
 
 
-RULES = [rule_r1, rule_r2, rule_r3, rule_r4, rule_r5, rule_r7, rule_r8, rule_r9, rule_r10]
+def rule_r12(ctx):
+    rid = "C07.R12"
+    ctx.r.rule(rid, "the url_prefix cut of get_environment relies on a normalised prefix: for EVERY configured string the cast of `url_prefix` yields '' or one '/' followed by a text that neither starts nor ends with '/' (string abstract interpretation of the cast; a prefix that keeps a trailing slash is never matched as prefix + '/', SCRIPT_NAME then ends in '/' and PATH_INFO keeps the prefix)")
+    from ..relang import FULL, L, mask_of
+    from ..strlang import SIGMA, Interp, Str
+    p = ctx.p
+    cast = None
+    for (name, fn) in _param_casts(ctx):
+        if name == "url_prefix":
+            cast = fn
+    if cast is None:
+        raise AnalysisError("anchor vanished: the cast of the url_prefix setting")
+    f = p.functions.get("adjustments." + cast)
+    if f is None:
+        ctx.r.violation(rid, "url-prefix-cast::" + cast, "url_prefix is cast by %s, not by a normaliser of this package: slashes are kept as configured" % cast, "src/waitress/adjustments.py")
+        return
+    it = Interp(p)
+    a = it.analyse(f, {f.params[0]: Str(SIGMA)})
+    if a is None or not isinstance(a.ret, Str):
+        raise AnalysisError("cannot interpret %s over strings (%r)" % (f.qual, getattr(a, "ret", None)))
+    slash = L.lit(b"/")
+    any1 = L.chars(FULL)
+    bad = {
+        "trailing-slash": L.cat(any1, L.sigma_star(), slash),
+        "no-leading-slash": L.cat(L.chars(FULL & ~mask_of(b"/")), L.sigma_star()),
+        "double-leading-slash": L.cat(slash, slash, L.sigma_star()),
+    }
+    for what, lang in bad.items():
+        w = (a.ret.lang & lang.minimized()).witness()
+        if w is None:
+            ctx.r.ok(rid, "%s: no result with %s" % (f.qual, what), f.loc())
+        else:
+            ctx.r.violation(rid, key_of(f, None, "url-prefix-" + what), "%s can return %r (%s): get_environment compares the path with url_prefix + '/' and sets SCRIPT_NAME = url_prefix, so for that configuration the prefix is never split off / SCRIPT_NAME is not a path prefix" % (f.qual, w.decode("latin-1"), what), f.loc())
+
+
+def _param_casts(ctx):
+    """(name, cast function name) pairs of Adjustments._params"""
+    from .c20 import _params
+    _, params = _params(ctx)
+    out = []
+    for e in params:
+        if isinstance(e, tuple) and len(e) == 2:
+            c = e[1]
+            out.append((e[0], getattr(c, "name", repr(c)).split(":")[-1].split(".")[-1]))
+    return out
+
+
+RULES = [rule_r1, rule_r2, rule_r3, rule_r4, rule_r5, rule_r7, rule_r8, rule_r9, rule_r10, rule_r12]
 
 from ..selftest import M, T, V  # noqa: E402
 
